@@ -7,7 +7,9 @@
    by the build matrix of harness/cmd/c01 and labelled so in the evidence. *)
 From Apko Require Import Base.Prelude Base.C01Lib Model.Repro Spec.ReproSpec
   Proofs.ReproProofs Generated.C01Calls.
-From Coq Require Import Permutation Sorted.
+From Apko Require Import Model.BuildSteps Generated.C10Steps Model.Repro2 Proofs.Repro2Proofs Proofs.ReproGenerated.
+From Apko Require Model.Resolver Proofs.ResolveProofs2 Proofs.ReproResolve.
+From Coq Require Import Permutation Sorted ZArith.
 Open Scope string_scope. Open Scope list_scope.
 
 (* The tie: every sort / set call that the canonicaliser models stand for is
@@ -192,48 +194,171 @@ Proof.
 Qed.
 Print Assumptions c01_install_schedule.
 
+(* ... and g.SetLimit(GOMAXPROCS + k), k read from the source (Generated
+   c01_install_limit_extra).  The group runs at most that many goroutines: the
+   expansions are STARTED in index order, each start waits for a free slot, the
+   installer holds one while it runs (Model/Repro2.v, section Limit).
+   (a) the limit only removes schedules: every complete run of the limited group
+       is, with its starts erased, one of the schedules c01_install_schedule
+       quantifies over — so its outcome is the sequential one;
+   (b) which ones it removes: expansion i cannot finish (nor start) before
+       i + 1 - limit (+1 while the installer runs) others have finished — with
+       GOMAXPROCS = 1 only the index order is left;
+   (c) it cannot block: GOMAXPROCS >= 1 and k >= 1 leave a slot beside the
+       installer, so an unfinished run always has a start or a completion enabled;
+   (d) a limit of one would: the installer takes it and waits for an expansion
+       that is never started. *)
+Theorem c01_install_limit_only_removes_schedules :
+  forall (P E St : Type) (expand : P -> option E) (install : St -> nat -> P -> E -> option St)
+         (pkgs : list P) (fs0 : St) (jobs : nat) (es : list levent),
+  let limit := install_limit c01_install_limit_extra jobs in
+  lvalid P E St expand install pkgs limit (linit St fs0) es = true ->
+  all_finished P St pkgs (lrun P E St expand install pkgs (linit St fs0) es) = true ->
+  Permutation (dones (erase es)) (seq 0 (List.length pkgs)) /\
+  i_state St (finish P E St expand install pkgs (l_ist St (lrun P E St expand install pkgs (linit St fs0) es)))
+    = seq_install P E St expand install 0 pkgs fs0.
+Proof.
+  intros P E St expand install pkgs fs0 jobs es limit V F.
+  destruct (limited_run_is_schedule P E St expand install pkgs limit fs0 es V F) as [Pm R].
+  split; [exact Pm|]. rewrite R. exact (install_schedule_perm P E St expand install pkgs fs0 (erase es) Pm).
+Qed.
+Print Assumptions c01_install_limit_only_removes_schedules.
+
+Theorem c01_install_limit_removes :
+  forall (P E St : Type) (expand : P -> option E) (install : St -> nat -> P -> E -> option St)
+         (pkgs : list P) (fs0 : St) (jobs L : nat) (es1 es2 : list levent) (i : nat),
+  install_limit c01_install_limit_extra jobs = Some L -> 1 <= L ->
+  let s1 := lrun P E St expand install pkgs (linit St fs0) es1 in
+  let installer := if alive P St pkgs (l_ist St s1) then 1 else 0 in
+  (lvalid P E St expand install pkgs (Some L) (linit St fs0) (es1 ++ LDone i :: es2) = true ->
+     i + installer < List.length (dones (erase es1)) + L) /\
+  (lvalid P E St expand install pkgs (Some L) (linit St fs0) (es1 ++ LStart :: es2) = true ->
+     l_started St s1 + installer < List.length (dones (erase es1)) + L).
+Proof.
+  intros P E St expand install pkgs fs0 jobs L es1 es2 i _ H1 s1 installer.
+  split; [exact (limited_done_bound P E St expand install pkgs (Some L) fs0 es1 i es2 L eq_refl H1)
+         | exact (limited_start_bound P E St expand install pkgs (Some L) fs0 es1 es2 L eq_refl)].
+Qed.
+Print Assumptions c01_install_limit_removes.
+
+Theorem c01_install_limit_cannot_block :
+  forall (P E St : Type) (expand : P -> option E) (install : St -> nat -> P -> E -> option St)
+         (pkgs : list P) (fs0 : St) (jobs : nat) (es : list levent),
+  1 <= jobs ->
+  let limit := install_limit c01_install_limit_extra jobs in
+  lvalid P E St expand install pkgs limit (linit St fs0) es = true ->
+  all_finished P St pkgs (lrun P E St expand install pkgs (linit St fs0) es) = false ->
+  exists e, e <> LStep /\ enabled P St pkgs limit (lrun P E St expand install pkgs (linit St fs0) es) e = true.
+Proof.
+  intros P E St expand install pkgs fs0 jobs es J limit.
+  exact (limited_progress P E St expand install pkgs limit fs0 es (install_limit_good c01_install_limit_extra jobs install_limit_extra_ok J)).
+Qed.
+Print Assumptions c01_install_limit_cannot_block.
+
+Theorem c01_install_limit_of_one_blocks_refuted :
+  exists (pkgs : list string) (expand : string -> option string) (install : list string -> nat -> string -> string -> option (list string)),
+  let s := linit (list string) [] in
+  all_finished string (list string) pkgs s = false /\
+  enabled string (list string) pkgs (Some 1) s LStart = false /\
+  (forall i, enabled string (list string) pkgs (Some 1) s (LDone i) = false) /\
+  lstep string string (list string) expand install pkgs s LStep = s.
+Proof. eexists. eexists. eexists. exact limit_one_deadlocks. Qed.
+Print Assumptions c01_install_limit_of_one_blocks_refuted.
+
 (* the build date: SOURCE_DATE_EPOCH when the variable is set (its parsed
    value, or the --build-date flag when it is blank), otherwise the latest of
    the flag and the installed packages' build times — whatever order
    GetInstalled lists them in *)
+(* Stated about the CODE of the loop as goextract read it this run
+   (Generated c01_bde_fold: which two values `if <a>.After(<b>) { <c> = <d> }`
+   compares and assigns, what the running value starts from, what is returned,
+   what is returned when the variable is set) run by the interpreter of
+   Model/Repro2.v: an edit that compares or returns something else changes
+   the statement, and the running-maximum lemma it rests on fails to check. *)
 Theorem c01_bde : forall flag env times times',
   Permutation times times' ->
-  build_date_epoch flag env times = build_date_epoch flag env times' /\
-  (forall v, env = Some v -> build_date_epoch flag env times = resolve_sde flag env) /\
-  (env = None -> IsLatest (build_date_epoch flag env times) (flag :: times)).
-Proof.
-  intros flag env times times' P. split; [exact (build_date_epoch_perm flag env times times' P) | exact (build_date_epoch_spec flag env times)].
-Qed.
+  build_date c01_bde_fold flag env times = build_date c01_bde_fold flag env times' /\
+  exists m, build_date c01_bde_fold flag env times = Some m /\
+    (forall v, env = Some v -> m = resolve_sde flag env) /\
+    (env = None -> IsLatest m (flag :: times)).
+Proof. exact bde_generated. Qed.
 Print Assumptions c01_bde.
 
-(* the multi-architecture date: the latest over the architectures whatever
-   order their goroutines finish in; SOURCE_DATE_EPOCH itself when it is set *)
+(* the multi-architecture date (internal/cli/build.go buildImageComponents): the
+   goroutines fold their dates into one variable under a mutex, in COMPLETION
+   order; [completed] is that order.  Over the generated code of that statement
+   (c01_multiarch_fold): the result is the same for every completion order, it is
+   the latest of the configured date and the architectures' dates, and it is
+   SOURCE_DATE_EPOCH itself when that is set (every architecture reports it). *)
 Theorem c01_bde_multiarch : forall sde completed completed',
   Permutation completed completed' ->
-  multi_arch_bde sde completed = multi_arch_bde sde completed' /\
-  IsLatest (multi_arch_bde sde completed) (sde :: completed) /\
-  (Forall (fun b => b = sde) completed -> multi_arch_bde sde completed = sde).
-Proof.
-  intros sde c c' P. split; [exact (multi_arch_bde_perm sde c c' P)|].
-  split; [exact (multi_arch_bde_latest sde c) | exact (multi_arch_bde_fixed sde c)].
-Qed.
+  multi_arch_date c01_multiarch_fold sde completed = multi_arch_date c01_multiarch_fold sde completed' /\
+  exists m, multi_arch_date c01_multiarch_fold sde completed = Some m /\
+    IsLatest m (sde :: completed) /\
+    (Forall (fun b => b = sde) completed -> m = sde).
+Proof. exact multiarch_generated. Qed.
 Print Assumptions c01_bde_multiarch.
+
+(* ... which is a fact about THAT comparison: the same loop comparing the new date
+   with the configured one instead of the running one lets the last finisher win *)
+Theorem c01_bde_multiarch_last_finisher_refuted :
+  exists sde completed completed', Permutation completed completed' /\
+    multi_arch_date last_finisher_fold sde completed <> multi_arch_date last_finisher_fold sde completed'.
+Proof. exact last_finisher_depends_on_order. Qed.
+Print Assumptions c01_bde_multiarch_last_finisher_refuted.
+
+(* /etc/apk/repositories of the final image is a function of the configuration
+   (runtime repositories + --repository-append), never of a temp path.
+   initializeApk (its lists read from the source: c01_init_repo_sources,
+   c01_init_repo_appends) writes the union of all four lists and, on a base image,
+   the path of the base image's auxiliary index — a file below the temp directory
+   ([tmp], [tmp']): the build-time file names it.  The steps of the build are the
+   generated lists of C10 (c10_steps, run by C10's interpreter from BuildLayers for
+   EVERY valuation [cond] of the condition texts in them); SetRepositories writes
+   the union of c10_setrepos_sources.  Whatever the temp path, a build that
+   serialises a layer serialises the runtime list.  An early return in
+   postBuildSetApk, a missing call of it, or other sources for the list make the
+   lemmas under this theorem fail. *)
+Theorem c01_repositories_file_independent_of_tempdir : forall cond c tmp tmp' st st',
+  init_repos c01_init_repo_sources c01_init_repo_appends c (Some tmp) = Some st ->
+  init_repos c01_init_repo_sources c01_init_repo_appends c (Some tmp') = Some st' ->
+  In tmp st /\
+  final_repos c10_steps c10_setrepos_sources cond c st = final_repos c10_steps c10_setrepos_sources cond c st' /\
+  (final_repos c10_steps c10_setrepos_sources cond c st = None \/
+   final_repos c10_steps c10_setrepos_sources cond c st = Some (Ok (canon_runtime_repos (rc_runtime c) (rc_xruntime c)))).
+Proof. exact repositories_generated. Qed.
+Print Assumptions c01_repositories_file_independent_of_tempdir.
+
+(* ... and the rewrite is what does it: with step lists that never call
+   SetRepositories the two temp paths give two different files *)
+Theorem c01_repositories_file_without_rewrite_refuted :
+  exists defs c tmp tmp' st st',
+    init_repos c01_init_repo_sources c01_init_repo_appends c (Some tmp) = Some st /\
+    init_repos c01_init_repo_sources c01_init_repo_appends c (Some tmp') = Some st' /\
+    final_repos defs c10_setrepos_sources (fun _ => true) c st <> final_repos defs c10_setrepos_sources (fun _ => true) c st'.
+Proof. exact repositories_need_the_rewrite. Qed.
+Print Assumptions c01_repositories_file_without_rewrite_refuted.
 
 (* c01_resolve_order — FULL (was refuted until fix c03e0c0, finding C01-F1).
    The install_if loop of GetPackageWithDependencies used to range over the Go
    map `added`: with two install_if packages triggered in one resolution the
    dependency list, hence the install order, hence lib/apk/db/installed, hence
    the layer digest, followed Go's map iteration.  It now walks the dependency
-   list by index (appended entries included) and the model has no iteration
-   order left to quantify over: for every install_if map and every dependency
-   list the loop ends within its fuel with ONE list — the dependency list it
-   started with, followed by names that are new, each once.  The tie to the
-   code is the installif stage (every observed order, in process and in
-   repeated identical CLI builds, must EQUAL this list). *)
-Theorem c01_resolve_order : forall m deps,
-  exists l, install_if_pass m deps = Some l /\
-    exists extra, l = deps ++ extra /\ NoDup extra /\ (forall x, In x extra -> ~ In x deps).
-Proof. exact install_if_one_order. Qed.
+   list by index (appended entries included).  Stated over the ONE model of the
+   resolver (Model/Resolver.v: iif_loop / iif_visit, versioned install_if entries
+   `name=version` included; the lemmas of C02/C14 are imported): there is no
+   iteration order to quantify over — for every universe and every dependency
+   list, on the de-duplicated list GetPackageWithDependencies hands it, the loop
+   ends within its fuel, neither fails nor panics, and returns ONE list: the list
+   it started with followed by packages whose names are new, each once.  The tie
+   to the code is the installif stage (every observed order, in process and in
+   repeated identical CLI builds, must EQUAL Resolver.resolve's list). *)
+Theorem c01_resolve_order : forall (U : Resolver.universe) (ds : list Resolver.pid),
+  let R := Resolver.new_resolver U in
+  exists r extra,
+    Resolver.iif_loop (Resolver.fuel_bound R) R 0 (fst (Resolver.dedup_by_name R ds)) (snd (Resolver.dedup_by_name R ds)) = Ok r /\
+    r = fst (Resolver.dedup_by_name R ds) ++ extra /\ NoDup (List.map (ResolveProofs2.nm R) r).
+Proof. exact ReproResolve.iif_loop_after_dedup. Qed.
 Print Assumptions c01_resolve_order.
 
 (* c01_tarball_order — REFUTED (finding C01-F2): the member order of the
@@ -270,19 +395,38 @@ Proof.
 Qed.
 
 Example c01_bde_example :
-  build_date_epoch 0 None [1700000000; 1700009999; 1700000500]%Z = 1700009999%Z /\
-  build_date_epoch 0 (Some (Some 1712345678%Z)) [1700000000; 1800000000]%Z = 1712345678%Z /\
-  build_date_epoch 5 (Some None) [1700000000]%Z = 5%Z /\
-  multi_arch_bde 0 [1700009999; 1700000001]%Z = multi_arch_bde 0 [1700000001; 1700009999]%Z.
+  build_date c01_bde_fold 0 None [1700000000; 1700009999; 1700000500]%Z = Some 1700009999%Z /\
+  build_date c01_bde_fold 0 (Some (Some 1712345678%Z)) [1700000000; 1800000000]%Z = Some 1712345678%Z /\
+  build_date c01_bde_fold 5 (Some None) [1700000000]%Z = Some 5%Z /\
+  multi_arch_date c01_multiarch_fold 0 [1700009999; 1700000001]%Z = Some 1700009999%Z /\
+  multi_arch_date c01_multiarch_fold 0 [1700000001; 1700009999]%Z = Some 1700009999%Z /\
+  (* the fold that compares with the configured date: the last finisher wins *)
+  multi_arch_date last_finisher_fold 0 [1700009999; 1700000001]%Z = Some 1700000001%Z.
 Proof. vm_compute. repeat split; reflexivity. Qed.
 
-(* the witness of the former refutation has one order; a chain (y after x1
-   after d1) and a package with two triggers are appended when their last
-   trigger has been visited *)
-Example c01_resolve_order_example :
-  install_if_pass ii_universe ["d1"; "d2"] = Some ["d1"; "d2"; "x1"; "x2"] /\
-  install_if_pass ii_universe ["d2"; "d1"] = Some ["d2"; "d1"; "x2"; "x1"] /\
-  install_if_pass (ii_build [{| ii_name := "y"; ii_if := ["x1"] |}; {| ii_name := "x1"; ii_if := ["d1"] |};
-                             {| ii_name := "z"; ii_if := ["d1"; "d2"] |}]) ["d1"; "d2"]
-    = Some ["d1"; "d2"; "x1"; "z"; "y"].
+(* an image on a base image: the build-time file names the temp path, the final one does not *)
+Example c01_repositories_example :
+  let c := {| rc_build := ["/b"]; rc_runtime := ["/r"; "/a"]; rc_xbuild := []; rc_xruntime := ["/a"] |} in
+  init_repos c01_init_repo_sources c01_init_repo_appends c (Some "/tmp/apko-temp-1/APKINDEX") = Some ["/a"; "/b"; "/r"; "/tmp/apko-temp-1/APKINDEX"] /\
+  final_repos c10_steps c10_setrepos_sources (single_layer_cond c10_steps) c ["/a"; "/b"; "/r"; "/tmp/apko-temp-1/APKINDEX"] = Some (Ok ["/a"; "/r"]).
+Proof. vm_compute. split; reflexivity. Qed.
+
+(* the limit: GOMAXPROCS = 1 gives a limit of two — the installer and ONE expansion:
+   the second expansion cannot start before the first has finished; with
+   GOMAXPROCS = 2 it can, and may finish first *)
+Example c01_install_limit_example :
+  let expand := fun p : string => Some p in
+  let install := fun (st : list string) (_ : nat) (p e : string) => Some (st ++ [e]) in
+  let v := fun jobs => lvalid string string (list string) expand install ["a"; "b"] (install_limit c01_install_limit_extra jobs) (linit (list string) []) in
+  v 1 [LStart; LStart] = false /\ v 1 [LStart; LDone 0; LStep; LStart; LDone 1; LStep] = true /\
+  v 2 [LStart; LStart; LDone 1; LDone 0; LStep; LStep] = true.
 Proof. vm_compute. repeat split; reflexivity. Qed.
+
+(* install_if with versions: x installs with d1=1.0-r0 (the version resolved), y would
+   with d1=2.0-r0, z is chained behind x; one order *)
+Example c01_resolve_order_example :
+  let P := fun n deps iif => Resolver.Build_pkg n "1.0-r0" "" deps [] iif 0%N "" "" in
+  let U := [P "y" [] ["d1=2.0-r0"]; P "z" [] ["x"; "d2"]; P "x" [] ["d1=1.0-r0"]; P "d1" [] []; P "d2" [] []; P "top" ["d1"; "d2"] []] in
+  option_map (List.map (fun i => Resolver.p_name (nth i U Resolver.dummy_pkg)))
+    (match Resolver.resolve U ["top"] [] with Ok l => Some l | _ => None end) = Some ["d1"; "d2"; "x"; "z"; "top"].
+Proof. vm_compute. reflexivity. Qed.
